@@ -302,7 +302,11 @@ func (a *Analysis) lockDiscipline(rep *Report, g *guardedState, name string, fn 
 			if !ok {
 				continue
 			}
-			if inLoop[e] && (e.Mode == "Lock" || e.Mode == "RLock") {
+			private := false // a registry object made on this path: nobody else can see it yet (a constructor filling it)
+			if r := addrRoot(stripCT(e.Recv)); r != nil && r.Op == "alloc" {
+				private = true
+			}
+			if inLoop[e] && !private && (e.Mode == "Lock" || e.Mode == "RLock") {
 				// a section per iteration (one lock per partition, say): the operation as a whole is not one atomic step
 				rep.Ob("Q3-single-critical-section", name+":loop", false, a.P.Pos(e.Pos), "the mutex is taken inside a loop: the operation consists of one critical section per iteration, and other operations can run between them")
 			}
